@@ -440,6 +440,12 @@ def run(ctx):
         f = G.sweep_file(rng, b_, st_, z_ if st_ != "bracket" else b"")
         sweeps.append((f, b_, "edge-sweep bs=%d %s zone=%r" % (b_, st_, z_.decode())))
         files.append((f, None, sweeps[-1][2], sorted(set([b_, b_ + 1, max(64, b_ - 1), 2 * b_, 0x10000]))))
+    # a line of the first message ends exactly on the last byte of block zero; a line longer than a block (or short
+    # continuation lines) follows
+    for b_ in (64, 65, 127, 128, 4096):
+        for f, note in G.edge_long_files(rng, b_):
+            sweeps.append((f, b_, note))
+            files.append((f, None, note, sorted(set([b_, b_ + 1, max(64, b_ - 1), 0x10000]))))
     VARIANTS = [("plain", []), ("instants", ["-u", "-d", G.DT_FORMAT])]
     bin_runs = bin_diff = 0
     nontrivial = set()
